@@ -18,6 +18,7 @@ func init() {
 	rt.Register("C05_create_three", VerifHarness_C05_create_three)
 	rt.Register("C05_create_names", VerifHarness_C05_create_names)
 	rt.Register("C05_index_names", VerifHarness_C05_index_names)
+	rt.Register("C05_big_packets", VerifHarness_C05_big_packets)
 	rt.Register("C05_sixteenk", VerifHarness_C05_sixteenk)
 	rt.Register("C05_volume_layout", VerifHarness_C05_volume_layout)
 }
@@ -363,6 +364,49 @@ func VerifHarness_C05_index_names() {
 	rt.Assert(bytesEqual(fs.files[fileName(0)], data) && bytesEqual(fs.files[bystander], []byte("keep")), "Create modifies neither its input nor a neighbouring file")
 	res, verr := verify(fs, index, VerifyOptions{NumGoroutines: 1})
 	rt.Assert(verr == nil && res.ShardCounts.UsableParityShardCount == 3 && !res.ShardCounts.RepairNeeded(), "Verify of the fresh set finds every block and nothing to repair")
+}
+
+// Packets with bodies around and beyond 1 KiB (a slice of 988 / 992 / 1000 / 2000
+// bytes, a checksum list of 48 / 49 / 50 slices, a main packet of 61 / 62 / 63
+// files): every packet of every written file carries the MD5 of its own set
+// id, type and body, as an independent parser computes it.
+func VerifHarness_C05_big_packets() {
+	useFileIDLessSpec()
+	fs := newSymFS()
+	var paths []string
+	slice := scnSlice
+	switch rt.Choice("shape", 3) {
+	case 0:
+		slice = []int{988, 992, 1000, 2000}[rt.Choice("slice", 4)]
+		d := make([]byte, 2*slice)
+		for i := range d {
+			d[i] = byte(i*11 + 5)
+		}
+		copy(d, rt.Bytes("head", 2))
+		fs.put(fileName(0), d)
+		paths = []string{fileName(0)}
+	case 1:
+		n := []int{48, 49, 50}[rt.Choice("slices", 3)]
+		d := make([]byte, n*scnSlice)
+		for i := range d {
+			d[i] = byte(i*3 + i/7 + 1)
+		}
+		fs.put(fileName(0), d)
+		paths = []string{fileName(0)}
+	case 2:
+		n := []int{61, 62, 63}[rt.Choice("files", 3)]
+		for i := 0; i < n; i++ {
+			p := scnDir + "/g" + string(rune('0'+i/10)) + string(rune('0'+i%10))
+			fs.put(p, []byte{byte(i + 1)})
+			paths = append(paths, p)
+		}
+	}
+	err := create(fs, scnIndex, paths, CreateOptions{SliceByteCount: slice, NumParityShards: 1, NumGoroutines: 1})
+	rt.Assert(err == nil, "Create succeeds on the scenario")
+	for _, w := range fs.writes {
+		pk := refParse(w.data, w.path)
+		rt.Assert(len(pk) >= 4, "creator, main, description and checksum packets present")
+	}
 }
 
 // The first-16-KiB hash at the boundary: exactly the prefix of length
